@@ -582,6 +582,64 @@ Lemma gen_rsa_run nm b w d ds w' :
   gen_rsa nm b w = mkout (Ok d) ds w' -> ds = [d] /\ d_site d = SRSA (Z.to_N b).
 Proof. unfold gen_rsa. intro H. bust H. inversion H; subst. auto. Qed.
 
+Lemma disc_gen_one nm g p : disc (gen_one nm g p).
+Proof.
+  destruct g; cbn; first [apply disc_gen_oct | apply disc_gen_rsa | apply disc_gen_ec
+                          | apply disc_gen_okp | apply disc_fail].
+Qed.
+Lemma disc_gen_key_set nm g p k : disc (gen_key_set nm g p k).
+Proof.
+  induction k as [|k IH]; cbn; [apply disc_ret|].
+  apply disc_bind; [apply disc_gen_one|]. intro d.
+  apply disc_bind; [exact IH|]. intro ds. apply disc_ret.
+Qed.
+
+Lemma gen_one_run nm g p w d ds w' : gen_one nm g p w = mkout (Ok d) ds w' -> ds = [d].
+Proof.
+  destruct g; cbn; intro H.
+  - apply gen_oct_run in H. tauto.
+  - apply gen_rsa_run in H. tauto.
+  - apply gen_ec_run in H. tauto.
+  - apply gen_okp_run in H. tauto.
+  - discriminate H.
+Qed.
+
+(* a generated key set: the emitted keys are exactly the draws of the call, in order, one
+   generator call per key, each as a single generate_key call would make it *)
+Lemma gen_key_set_run nm g p k : forall w keys ds w',
+  gen_key_set nm g p k w = mkout (Ok keys) ds w' ->
+  ds = keys /\ length keys = k /\
+  map d_idx keys = nseq (w_ctr w) k /\ w_ctr w' = w_ctr w + N.of_nat k /\
+  Forall (fun d => exists w0 w1, gen_one nm g p w0 = mkout (Ok d) [d] w1) keys.
+Proof.
+  induction k as [|k IH]; intros w keys ds w' H; cbn in H.
+  - apply run_ret in H as (<- & -> & ->). cbn. repeat split; auto. lia.
+  - apply run_bind in H as (d & ds1 & w1 & ds2 & H1 & H2 & ->).
+    apply run_bind in H2 as (rest & ds3 & w3 & ds4 & H3 & H4 & ->).
+    apply run_ret in H4 as (<- & -> & ->).
+    pose proof (gen_one_run _ _ _ _ _ _ _ H1) as ->.
+    pose proof (disc_gen_one nm g p w) as [D1 D2]. rewrite H1 in D1, D2. cbn in D1, D2.
+    apply IH in H3 as (-> & Hl & Hi & Hw & HF).
+    rewrite app_nil_r. cbn. repeat split.
+    + congruence.
+    + inversion D1 as [Hd]. rewrite Hi. f_equal. f_equal. lia.
+    + lia.
+    + constructor; [exists w, w1; exact H1 | exact HF].
+Qed.
+
+Lemma gen_key_set_err nm g p k w e ds w' :
+  gen_key_set nm g p k w = mkout (Err e) ds w' ->
+  exists w0 ds0 w1, gen_one nm g p w0 = mkout (Err e) ds0 w1.
+Proof.
+  revert w ds w'. induction k as [|k IH]; intros w ds w' H; cbn in H; [discriminate H|].
+  unfold bindM in H. destruct (gen_one nm g p w) as [r1 d1 w1] eqn:E1. cbn in H.
+  destruct r1 as [d|e1].
+  - destruct (gen_key_set nm g p k w1) as [r2 d2 w2] eqn:E2. cbn in H.
+    destruct r2 as [l|e2]; cbn in H; [discriminate H|].
+    inversion H; subst. eapply IH. exact E2.
+  - inversion H; subst. eauto.
+Qed.
+
 Definition encs_ok (encs : list jwe_enc_row) : Prop := Forall (fun e => 8 <= ee_cek_size e) encs.
 
 Lemma find_enc_in encs n e : find_enc encs n = Some e -> In e encs.
@@ -590,6 +648,8 @@ Proof. unfold find_enc. intro H. apply find_some in H. tauto. Qed.
 Lemma call_good algs encs nm c w : encs_ok encs -> good w (run_call algs encs nm c w).
 Proof.
   intro Hok. destruct c; cbn [run_call].
+  - apply good_lift; [apply disc_gen_key_set|]. intros keys ds w' H x.
+    apply gen_key_set_run in H as (-> & _). lia.
   - apply good_lift; [apply disc_encrypt|].
     intros tok ds w' H x. apply encrypt_ok in H as (e & He & H).
     assert (Hpos : 0 < ee_cek_size e / 8).
